@@ -37,6 +37,11 @@ var treeCfg = wld.GenCfg{MaxActors: 7, MaxDepth: 4, Failures: true, Hooks: true,
 func genTreeCase(rt *rapid.T) TreeCase {
 	c := TreeCase{Scenario: wld.GenScenario(rt, treeCfg)}
 	c.Scenario.Racing = rapid.Bool().Draw(rt, "racing")
+	for i := range c.Scenario.Tree {
+		if rapid.IntRange(0, 5).Draw(rt, "lateSpawn") == 0 {
+			c.Scenario.Tree[i].Spec.LateSpawn = rapid.IntRange(1, 2).Draw(rt, "lateSpawns")
+		}
+	}
 	c.How = rapid.SampledFrom([]string{"stop", "stop", "stop-timeout", "cancel"}).Draw(rt, "how")
 	if c.How == "stop-timeout" {
 		c.TimeoutMs = rapid.SampledFrom([]int{50, 1000, 30000}).Draw(rt, "timeout")
